@@ -433,6 +433,26 @@ pub fn collect_imports(body: &[Stmt], out: &mut Vec<(String, Vec<Stmt>)>) {
         }
     }
     for s in body {
+        // expressions that sit directly in a statement (conditions, scrutinees, candidates, sources)
+        let mut direct: Vec<&Expr> = vec![];
+        match s {
+            Stmt::If(c, ..) | Stmt::While(c, _) => direct.push(c),
+            Stmt::IfSet(_, _, e, ..) | Stmt::WhileSet(_, _, e, _) | Stmt::For(_, e, _) => direct.push(e),
+            Stmt::Match(x, arms) => {
+                direct.push(x);
+                for arm in arms {
+                    if let Arm::Values(vs, _) = arm {
+                        direct.extend(vs.iter());
+                    }
+                }
+            }
+            _ => {}
+        }
+        for e in direct {
+            let mut found = vec![];
+            walk_expr(e, &mut |x| in_expr(x, &mut found));
+            out.append(&mut found);
+        }
         match s {
             Stmt::Import(n, b) => {
                 out.push((n.clone(), b.clone()));
